@@ -104,7 +104,9 @@ struct ops<T, E, hep::multi_channel_chkpt_with_rng<E, T>>
 template <typename C>
 static std::string text_of(C const& c) { std::ostringstream o; c.serialize(o); return o.str(); }
 
-// op encoding: 'r' run(1), 'R' run(2), 'l' reload, '0'..'5' rollback(k)
+// op encoding: 'r' run(1), 'R' run(2), 'l' reload, '0'..'5' rollback(k), 'A'..'F' rollback(k) called through a
+// reference to the checkpoint's root base class (the member is virtual: what is done must not depend on the
+// static type of the reference), 'a'..'c' arguments far beyond the end
 template <typename T, typename E, typename C>
 struct explorer
 {
@@ -141,6 +143,7 @@ struct explorer
         for (sz k = 0; k <= n + 1; ++k) o.push_back(char('0' + k));
         // arguments far beyond the number of results (congruent to valid ones modulo 2^32, and the extremes)
         o.push_back('a'); o.push_back('b'); o.push_back('c');
+        for (sz k = 0; k <= n; ++k) o.push_back(char('A' + k));
         return o;
     }
 
@@ -167,9 +170,14 @@ struct explorer
         }
         else
         {
-            sz const k = op == 'a' ? (sz(1) << 32) : op == 'b' ? (sz(1) << 32) + n : op == 'c' ? (sz(1) << 63) + 1 : sz(op - '0');
+            bool const via_base = op >= 'A' && op <= 'F';
+            sz const k = op == 'a' ? (sz(1) << 32) : op == 'b' ? (sz(1) << 32) + n : op == 'c' ? (sz(1) << 63) + 1 : via_base ? sz(op - 'A') : sz(op - '0');
             bool threw = false;
-            try { s.c.rollback(k); }
+            try
+            {
+                if (via_base) static_cast<hep::chkpt<typename C::result_type>&>(s.c).rollback(k);
+                else s.c.rollback(k);
+            }
             catch (std::out_of_range const&) { threw = true; }
             if (k > n)
             {
@@ -184,12 +192,12 @@ struct explorer
         s.hist += op;
         // oracle: the checkpoint is the golden one for its number of results
         sz const now = s.c.results().size();
-        sz const expect_n = (op == 'r') ? n + 1 : (op == 'R') ? n + 2 : (op == 'l' || op >= 'a') ? n : sz(op - '0');
+        sz const expect_n = (op == 'r') ? n + 1 : (op == 'R') ? n + 2 : (op == 'l' || op >= 'a') ? n : (op >= 'A' && op <= 'F') ? sz(op - 'A') : sz(op - '0');
         if (now != expect_n) { r.violate("wrong-number-of-results", id, id + ": " + std::to_string(now) + " results, expected " + std::to_string(expect_n)); return false; }
         std::string const text = text_of(s.c);
         if (text != golden[now])
         {
-            std::string key = (op == 'r' || op == 'R') ? "resume-differs-from-original-run" : (op == 'l') ? "reload-changes-text" : (op < 'a' && sz(op - '0') == n ? "rollback-to-n-changes-checkpoint" : "rollback-differs-from-short-run");
+            std::string key = (op == 'r' || op == 'R') ? "resume-differs-from-original-run" : (op == 'l') ? "reload-changes-text" : (now == n ? "rollback-to-n-changes-checkpoint" : "rollback-differs-from-short-run");
             std::string const d = vf::first_difference(text, golden[now]);
             r.violate(key, id, id + ": text differs from the run that performed only " + std::to_string(now) + " iterations: " + d);
             return false;
